@@ -8,6 +8,12 @@ import EqsigVerif.Lemmas.SwitchedExcursions
 Python: `eqsig/fns/peaks_and_crossings.py`, `get_zero_crossings_array_indices`, `get_switched_peak_array_indices`
 (tree with the planned fixes).  Model: `EqsigVerif/Model/Switched.lean`.  `v[i]` is written `v.getD i 0`.
 All theorems are stated under the guard `v ≠ []` (the code raises `IndexError` on an empty series).
+
+Since the repair of finding F12-3 `get_switched_peak_array_indices` ends with `return np.unique(switched_peak_indices)`:
+`switchedPeaks` below is the model of the *loop* (the value of the local `switched_peak_indices`), the public function returns
+`switchedPeaksOut = NpU.unique ∘ switchedPeaks` (`Model/SwitchedOut.lean`).  The two agree whenever `peaks v` is strictly ascending
+(every non-constant series), so the theorems below are theorems about the function there; the statements about the function for
+*every* series (strict ascent, constant series) are in `Props/C12Repair.lean`.
 -/
 namespace EqsigVerif.Props.C12
 set_option linter.unusedVariables false
@@ -77,7 +83,8 @@ example : zeroCrossings [1, -1, 2, -3, 1/4, -1/4, 3] false (3/2) = [2, 3, 6] ∧
 (v) the result lists, group by group, the index of the first member with the largest `|value|`;
 (vi) consecutive reported values `x, y` satisfy `x·y ≤ 0`.
 (Strict ascent of the result follows from (i) and C11.a for non-constant `v`; for a constant series
-`peaks v = [0, 0]` and e.g. `v = [0]` reports `[0, 0]`.) -/
+`peaks v = [0, 0]` and e.g. `v = [0]` makes the loop report `[0, 0]` — the public function returns `np.unique` of it, `[0]`:
+`Props/C12Repair.lean::switched_out_strict_ascending_all`.) -/
 theorem switched_shape (v : List ℚ) (hv : v ≠ []) :
     (switchedPeaks v 0).Sublist (peaks v) ∧
     (∃ gs : List (List (ℕ × ℚ)),
@@ -158,7 +165,7 @@ The hypotheses `hshape`, `hseg` are, verbatim, the conclusions of C11.a (`EqsigV
 of the first conjunct of C11.b (`(EqsigVerif.Props.C11.peaks_segments v hv).1`) for a non-constant series; they are
 taken as explicit hypotheses because `Lemmas/Peaks` is built by another agent.
 (Constant series are outside C11.a/b: there `peaks v = [0, 0]`, a non-zero constant series reports `[0]`,
-the zero series reports `[0, 0]` and has no excursion.) -/
+the zero series has no excursion; its loop result is `[0, 0]`, which the public function deduplicates to `[0]`.) -/
 theorem switched_excursions (v : List ℚ) (hv : v ≠ [])
     (hshape : (peaks v).Pairwise (· < ·) ∧ (peaks v).head? = some 0 ∧
       ∃ k, (peaks v).getLast? = some k ∧ 0 < k ∧ k < v.length ∧ v.getD (k-1) 0 ≠ v.getD k 0 ∧
@@ -210,9 +217,11 @@ example : ∃ r ∈ switchedPeaks [1, 2, -1, -3, -3] 0, SameExc [1, 2, -1, -3, -
         first | (exfalso; omega) | decide +kernel
 
 
-/-- C12.e, complement for constant series (not covered by C11.a/b): a non-zero constant series is a single
-excursion and reports exactly index `0`; the zero series has no excursion and reports `[0, 0]`
-(`peaks = [0, 0]`, two zero-valued groups) — as the Python code. -/
+/-- C12.e, complement for constant series (not covered by C11.a/b), about the **loop** `switchedPeaks` (the local
+`switched_peak_indices` of the Python code): a non-zero constant series is a single excursion and reports exactly index `0`;
+for the zero series the loop reports `[0, 0]` (`peaks = [0, 0]`, two zero-valued groups).  The public function now deduplicates
+(`return np.unique(switched_peak_indices)`, repair of finding F12-3): it returns `[0]` for every constant series, see
+`Props/C12Repair.lean::switched_out_const` / `switched_out_zero_series`; this theorem stays true of the loop. -/
 theorem switched_const (c : ℚ) (n : ℕ) :
     switchedPeaks (List.replicate (n+1) c) 0 = if c = 0 then [0, 0] else [0] :=
   switchedPeaks_replicate c n
